@@ -190,6 +190,8 @@ def run_c01(pid, tier):
     for unit in ["  ", " \t", "x \n", " \"", "\\ ", "a b", "\r\n "]:
         run = unit * (9000 // len(unit))
         extra.append(dict(canon=("@use super::wrap_html;\n@(" + DECL + ")\n|" + run + "|").encode(), perts=[], expect=[("|" + run + "|").encode()] * 3, items=None))
+    for run in ["å\r\nb", "line one é\r\nline two\r\n\r\nend", "\r\n€", "a\rb\u00e9\n\rc", "tab\t\u00e9\r\n"]:
+        extra.append(dict(canon=("@use super::wrap_html;\n@(" + DECL + ")\n|" + run + "|").encode(), perts=[], expect=[("|" + run + "|").encode()] * 3, items=None))
     run = ("åäö " * 13 + "\n") * 420
     extra.append(dict(canon=("@use super::wrap_html;\n@(" + DECL + ")\n|" + run).encode(), perts=[], expect=[("|" + run).encode()] * 3, items=None))
     # comment bodies over {*, @, space, x, newline} exhaustively (to length 4 quick / 6 thorough), between two text markers
@@ -222,7 +224,20 @@ def run_c15(pid, tier):
     files = {"t/%s.rs.html" % k: (v + "\n[@t|@:c()|@:d()]").encode() for k, v in wraps.items()}
     callees = dict({"wrap_html": 2}, **{k + "_html": 2 for k in wraps})
     mk = lambda rng: Gen(rng, depth=3, callees=callees)
-    return suite(pid, tier, mk, n, pert_variants=4, decl_variants=True, extra_files=files, uses=tuple("super::" + c for c in sorted(callees)) + ("crate::P",),
+    def post(chk, T, oracle_fail, disagree):
+        # templates without parameters: layout and comments after `@()` / `@( )`, and between the parts of an else-if chain
+        groups = [[b"@()\n<p>x</p>\n", b"@()\n@* c *@\n<p>x</p>\n", b"@()@* c *@ \n\t<p>x</p>\n", b"@()\n\n@* a *@\n@* b *@\n<p>x</p>\n", b"@( )\n@* c *@\n<p>x</p>\n", b"@()\r\n@* c *@\r\n<p>x</p>\n",
+                   b"@(\n)\n@** c **@\n\n<p>x</p>\n"],
+                  [b"@(a: bool, b: bool)\n@if a {A} else if b {B} else {C}", b"@(a: bool, b: bool)\n@if a {A} else  if b {B} else {C}", b"@(a: bool, b: bool)\n@if a {A}\nelse\nif b {B}\nelse\n{C}",
+                   b"@(a: bool, b: bool)\n@if a {A} else @* c *@ if b {B} @* d *@ else @* e *@ {C}", b"@(a: bool, b: bool)\n@if a {A}else if b {B}else{C}", b"@(a: bool, b: bool)\n@if a {A}\r\n\telse\tif b {B}\r\n\telse {C}"]]
+        for grp in groups:
+            impl, model = compile_pairs([("v_html", v) for v in grp])
+            for v, a, m in zip(grp, impl, model):
+                chk.count(v, True)
+                if a != m: disagree.append((v, a, m))
+                if a != impl[0] or decode_outcome(a)[0] != "OK":
+                    oracle_fail.append((v, "layout/comment variant of an accepted template does not give byte-identical code (%s)" % decode_outcome(a)[0], dict(canonical=grp[0].decode(), code=decode_outcome(a)[1].decode("utf8", "replace")[-500:]))); break
+    return suite(pid, tier, mk, n, post=post, pert_variants=4, decl_variants=True, extra_files=files, uses=tuple("super::" + c for c in sorted(callees)) + ("crate::P",),
                  rule="templates from the structured generator (all directive kinds, calls with block arguments, use lines) x random layouts (spaces, tabs, LF, CRLF, one-line and multi-line comments, "
                       "comments ending in several stars) at every insignificant position: around @use lines, after the declaration, after a directive keyword, before '{', around else / in / => , between match arms, after call commas and block arguments. "
                       "A third of the templates, and three of the four callee templates, carry other whitespace inside their parameter declarations (around colons - of Content parameters too -, after commas, inside the parentheses); their behaviour is compared with the canonical expectation.")
@@ -281,7 +296,25 @@ def run_c04(pid, tier):
                   expect=[("|[%d|}}{{@@|<1><1>%d%d]|" % (a["n"], a["n"], a["n"])).encode() for a in _AS]),
              dict(canon=(hd + "|@:wrap_html(n, {@:zero_html(n)@:zero_html(n)}, {@@@@@@@}@}@}})|").encode(), perts=[], items=None,
                   expect=[("|[%d|<%d><%d>|@@@}}}]|" % (a["n"], a["n"], a["n"])).encode() for a in _AS])]
-    return suite(pid, tier, mk, n, extra_cases=extra, extra_files={p: c.encode() for p, c in C04_FILES.items()}, callee_bodies=c04_bodies(), dirs=["", "", "sub/", "sub/deep/", "other/", "only/dirs/here/"], uses_for=uses_for,
+    def post(chk, T, oracle_fail, disagree):
+        # a callee in a child module edited in place between two runs into one OUT_DIR: the second run regenerates it
+        import build_lib
+        scen = []
+        for v in range(3):
+            callee = "t/sub/item.rs.html" if v < 2 else "t/sub/deep/item.rs.html"
+            use = "super::sub::item_html" if v < 2 else "super::sub::deep::item_html"
+            old_, new_ = "@(n: usize)\n<li>old @n</li>", "@(n: usize)\n<li>NEW @n!</li>"
+            scen.append([('W', callee, old_), ('W', 't/list.rs.html', "@use %s;\n@()\n@:item_html(1)" % use), ('R', [('c', 't')]),
+                         (('W' if v != 1 else 'T'), callee, new_ if v != 1 else "@(n: usize)\n<li>new @n</li>"), ('R', [('c', 't')])])
+        for sc, r in zip(scen, build_lib.run_scenarios(scen)):
+            runs = [x for x in r["runs"] if x["kind"] == "R"]
+            chk.count(("rebuild callee " + sc[0][1] + sc[3][0]).encode(), True)
+            path = ("templates/" + sc[0][1][2:].rsplit("/", 1)[0] + "/template_item_html.rs").encode()
+            code = ((runs[1]["after"].get(path) or (b"", ""))[0] or b"") if len(runs) > 1 and runs[1]["after"] else b""
+            marker = b"NEW " if sc[3][0] == 'W' else b"new "
+            if marker not in code:
+                oracle_fail.append((sc[3][2].encode(), "a callee in a child module was edited in place and the templates compiled again into the same OUT_DIR: the call still renders the old callee", dict(code=code[-400:].decode("utf8", "replace"))))
+    return suite(pid, tier, mk, n, post=post, extra_cases=extra, extra_files={p: c.encode() for p, c in C04_FILES.items()}, callee_bodies=c04_bodies(), dirs=["", "", "sub/", "sub/deep/", "other/", "only/dirs/here/"], uses_for=uses_for,
                  max_src=1600 if tier == "quick" else 5000,
                  rule="acyclic call graphs: callers in the root, a child, a grandchild and an unrelated sibling module call templates with 0-3 Content parameters located in the root, child and grandchild modules, "
                       "directly and through intermediate templates that forward their block ({@:c()}), chains of two intermediates across modules; arguments mix Rust expressions and blocks that are empty, "
